@@ -9,6 +9,7 @@
    Strings are byte lists. *)
 From Coq Require Import Ascii String.
 From LLGoV Require Export Lib.Common.
+From LLGoV Require Import Lib.BV.
 Local Open Scope N_scope.
 
 Definition lit (s : string) : str :=
@@ -533,3 +534,136 @@ Definition deep_equal (fuel : nat) (h : heap) (a b : val) : option bool :=
 
 (* ---------- boolean equalities for the correspondence ---------- *)
 Definition tflag_eqb : N -> N -> bool := N.eqb.
+
+(* ================= reflect.Value: integer and float kinds ================= *)
+(* runtime/internal/lib/reflect/value.go: Value.Int, Value.Uint, Value.SetInt, Value.SetUint,
+   makeInt, cvtInt, cvtUint, cvtFloat, cvtIntFloat, cvtFloatInt, makeFloat, Value.Float;
+   value_go123.go: OverflowInt, OverflowUint.  64-bit target (is64bit). *)
+Local Open Scope Z_scope.
+
+Inductive ikind := KInt8 | KInt16 | KInt32 | KInt64 | KInt
+                 | KUint8 | KUint16 | KUint32 | KUint64 | KUint | KUintptr.
+
+Definition kbits (k : ikind) : Z :=
+  match k with
+  | KInt8 | KUint8 => 8 | KInt16 | KUint16 => 16 | KInt32 | KUint32 => 32
+  | KInt64 | KInt | KUint64 | KUint | KUintptr => 64
+  end.
+Definition ksigned (k : ikind) : bool :=
+  match k with KInt8 | KInt16 | KInt32 | KInt64 | KInt => true | _ => false end.
+
+(* a Value of an integer kind: either the number itself sits in the pointer word (sign- or
+   zero-extended to 64 bits: what the compiler puts into an interface, what makeInt returns), or
+   the Value is indirect (flagIndir: addressable variables, New(t).Elem()) and the word is the
+   content of the memory cell of the kind's width *)
+Record ival := IVal { iv_kind : ikind; iv_indir : bool; iv_word : Z }.
+
+(* the Value that holds the Go value x of kind k *)
+Definition ival_of (k : ikind) (indir : bool) (x : Z) : ival :=
+  IVal k indir (if indir then wrap (kbits k) x else wrap 64 x).
+
+(* the values of kind k *)
+Definition krange (k : ikind) (x : Z) : Prop :=
+  if ksigned k then - 2 ^ (kbits k - 1) <= x < 2 ^ (kbits k - 1) else 0 <= x < 2 ^ kbits k.
+Definition krangeb (k : ikind) (x : Z) : bool :=
+  if ksigned k then (- 2 ^ (kbits k - 1) <=? x) && (x <? 2 ^ (kbits k - 1))
+  else (0 <=? x) && (x <? 2 ^ kbits k).
+
+(* Value.Int: the intN cell p points to, sign-extended, when indirect; int64(uintptr(p)) otherwise *)
+Definition value_int (v : ival) : Z :=
+  if iv_indir v then sgn (kbits (iv_kind v)) (iv_word v) else sgn 64 (iv_word v).
+(* Value.Uint: the uintN cell p points to, zero-extended, when indirect; uint64(uintptr(p)) otherwise *)
+Definition value_uint (v : ival) : Z := iv_word v.
+(* the accessor that applies to the kind *)
+Definition value_read (v : ival) : Z := if ksigned (iv_kind v) then value_int v else value_uint v.
+
+(* Value.SetInt / SetUint: mustBeAssignable (only indirect values are); the cell receives intN(x) *)
+Definition set_int (v : ival) (x : Z) : option ival :=
+  if iv_indir v then Some (IVal (iv_kind v) true (wrap (kbits (iv_kind v)) x)) else None.
+Definition set_uint (v : ival) (x : Z) : option ival :=
+  if iv_indir v then Some (IVal (iv_kind v) true (wrap (kbits (iv_kind v)) x)) else None.
+
+(* int64 << n and int64 >> n; uint64 << n and uint64 >> n *)
+Definition shl_i64 (x n : Z) : Z := sgn 64 (wrap 64 (x * 2 ^ n)).
+Definition shr_i64 (x n : Z) : Z := x / 2 ^ n.
+Definition shl_u64 (x n : Z) : Z := wrap 64 (x * 2 ^ n).
+Definition shr_u64 (x n : Z) : Z := x / 2 ^ n.
+(* OverflowInt: bitSize := size*8; trunc := (x << (64 - bitSize)) >> (64 - bitSize); x != trunc *)
+Definition overflow_int (k : ikind) (x : Z) : bool :=
+  let n := 64 - kbits k in negb (x =? shr_i64 (shl_i64 x n) n).
+Definition overflow_uint (k : ikind) (x : Z) : bool :=
+  let n := 64 - kbits k in negb (x =? shr_u64 (shl_u64 x n) n).
+
+(* makeInt(f, bits, t): fx = true narrows the bits to the target kind first (the code that
+   exists); fx = false is the code before the repair, which kept the whole word *)
+Definition narrow_bits (k : ikind) (bits : Z) : Z :=
+  match k with
+  | KInt8 => wrap 64 (sgn 8 (wrap 8 bits))
+  | KInt16 => wrap 64 (sgn 16 (wrap 16 bits))
+  | KInt32 => wrap 64 (sgn 32 (wrap 32 bits))
+  | KUint8 => wrap 8 bits
+  | KUint16 => wrap 16 bits
+  | KUint32 => wrap 32 bits
+  | _ => bits
+  end.
+Definition make_int (fx : bool) (bits : Z) (k : ikind) : ival :=
+  IVal k false (if fx then narrow_bits k bits else bits).
+(* cvtInt: makeInt(uint64(v.Int())); cvtUint: makeInt(v.Uint()) *)
+Definition cvt_int (fx : bool) (v : ival) (k : ikind) : ival := make_int fx (wrap 64 (value_int v)) k.
+Definition cvt_uint (fx : bool) (v : ival) (k : ikind) : ival := make_int fx (value_uint v) k.
+(* convertOp for integer source and destination kinds *)
+Definition convert_int (fx : bool) (v : ival) (k : ikind) : ival :=
+  if ksigned (iv_kind v) then cvt_int fx v k else cvt_uint fx v k.
+
+(* Go: the conversion T(x) of an integer x to the integer type of kind dst *)
+Definition go_conv (dst : ikind) (x : Z) : Z :=
+  if ksigned dst then sgn (kbits dst) (wrap (kbits dst) x) else wrap (kbits dst) x.
+
+(* observables of the end-to-end table: Convert then the accessor; SetInt/SetUint then the accessor *)
+Definition conv_read (fx : bool) (src dst : ikind) (indir : bool) (x : Z) : Z :=
+  value_read (convert_int fx (ival_of src indir x) dst).
+Definition set_read (k : ikind) (x : Z) : option Z :=
+  match (if ksigned k then set_int else set_uint) (ival_of k true 0) x with
+  | Some v => Some (value_read v)
+  | None => None
+  end.
+Definition overflow (k : ikind) (x : Z) : bool :=
+  if ksigned k then overflow_int k x else overflow_uint k x.
+
+(* ---------- floats: float32 and float64 are abstract; rounding is a parameter ---------- *)
+Section Floats.
+  Variables (f32 f64 : Type).
+  Variable widen : f32 -> f64.            (* float64(x), exact *)
+  Variable narrow : f64 -> f32.           (* float32(x), rounds *)
+  Variable of_int : Z -> f64.             (* float64(n), rounds above 2^53 *)
+  Variable to_int : f64 -> Z.             (* int64(f): truncation towards zero *)
+
+  Inductive fval := F32 (x : f32) | F64 (x : f64).
+  Inductive fkind := KFloat32 | KFloat64.
+  Definition fkind_of (v : fval) : fkind := match v with F32 _ => KFloat32 | F64 _ => KFloat64 end.
+
+  (* Value.Float *)
+  Definition value_float (v : fval) : f64 := match v with F32 x => widen x | F64 x => x end.
+  (* makeFloat(f, v, t) *)
+  Definition make_float (v : f64) (k : fkind) : fval :=
+    match k with KFloat32 => F32 (narrow v) | KFloat64 => F64 v end.
+  (* cvtFloat: float32 -> float32 keeps the bits (no round trip through float64) *)
+  Definition cvt_float (v : fval) (k : fkind) : fval :=
+    match v, k with
+    | F32 x, KFloat32 => F32 x
+    | _, _ => make_float (value_float v) k
+    end.
+  (* cvtIntFloat / cvtUintFloat: makeFloat(float64(v.Int())) *)
+  Definition cvt_int_float (v : ival) (k : fkind) : fval := make_float (of_int (value_read v)) k.
+  (* cvtFloatInt: makeInt(uint64(int64(v.Float()))) *)
+  Definition cvt_float_int (fx : bool) (v : fval) (k : ikind) : ival :=
+    make_int fx (wrap 64 (to_int (value_float v))) k.
+End Floats.
+
+Definition ikind_eqb (a b : ikind) : bool :=
+  match a, b with
+  | KInt8, KInt8 | KInt16, KInt16 | KInt32, KInt32 | KInt64, KInt64 | KInt, KInt
+  | KUint8, KUint8 | KUint16, KUint16 | KUint32, KUint32 | KUint64, KUint64 | KUint, KUint
+  | KUintptr, KUintptr => true
+  | _, _ => false
+  end.
